@@ -189,6 +189,22 @@ def check_aliases(sess):
     sess.absorb(ctx, replay=replay_mdlt)
 
 
+
+def check_default_accum(sess, module, qualname, param='accum', want='clear'):
+    """a call that omits the start accumulator is the call with the parameter's default: the default must be the text "clear"
+    (the clear-rule paths are verified above for an explicit "clear")"""
+    import ast
+    from pyvc import front
+    fn = front.load(module).func(qualname)
+    names = [a.arg for a in fn.args.args]
+    ok = False
+    if param in names:
+        j = names.index(param) - (len(names) - len(fn.args.defaults))
+        if j >= 0:
+            d = fn.args.defaults[j]
+            ok = isinstance(d, ast.Constant) and d.value == want
+    sess.add(f'{qualname}/default-of-{param}-is-"{want}"', f'{module}.{qualname}', 'ensures', [], z3.BoolVal(bool(ok)))
+
 def build(sess):
     sess.level = 'proof'
     sess.trust(
@@ -202,6 +218,7 @@ def build(sess):
     lemmas(sess)
     check_mdlt(sess, 'int')
     check_mdlt(sess, 'clear')
+    check_default_accum(sess, MOD, 'move_dist_lt')
     check_aliases(sess)
     sess.explanation = ('move_dist_lt is executed symbolically from the real source for all ints with 1<=time<=2^33, '
                         '|rate|,|accel|<=2^32 (a superset of the firmware domain), accumulator in [0,2^31) or "clear", and any '
